@@ -820,9 +820,59 @@ func (vp *vwPeer) viewString2() string {
 	return sb.String()
 }
 
+// c02PrefixLimitCase (oracle only, C02): the UPDATE that takes a peer over its prefix limit is
+// applied to the Adj-RIB-In and the session is shut; whatever that UPDATE withdrew must leave the
+// Loc-RIB as well — after the teardown no route of the peer may be left anywhere.
+func c02PrefixLimitCase(t *testing.T, o *vOut) {
+	for _, withWithdraw := range []bool{false, true} {
+		w := newVWorld(t, 65000, "10.255.0.1")
+		src := w.addPeer(vwPeerSpec{kind: "ebgp", as: 65001, rid: netip.MustParseAddr("10.0.0.1"), addr: netip.MustParseAddr("192.168.0.1"), maxPrefixes: 2})
+		obs := w.addPeer(vwPeerSpec{kind: "ebgp", as: 65002, rid: netip.MustParseAddr("10.0.0.2"), addr: netip.MustParseAddr("192.168.0.2")})
+		w.sessionUp(src, nil)
+		w.sessionUp(obs, nil)
+		mk := func(i int) *c01Route { return &c01Route{pfx: i, marker: 100 + i, segs: [][]uint32{{2, 65001}}} }
+		w.recv(src, mk(0).msg(src))
+		w.recv(src, mk(1).msg(src))
+		// one UPDATE: (withdraw prefix 0,) announce prefix 2 and a fourth prefix -> 3 or 4 > 2
+		u := mk(2).msg(src)
+		body := u.Body.(*bgp.BGPUpdate)
+		extra, _ := bgp.NewIPAddrPrefix(netip.MustParsePrefix("10.9.0.0/24"))
+		body.NLRI = append(body.NLRI, bgp.PathNLRI{NLRI: extra})
+		if !withWithdraw {
+			extra2, _ := bgp.NewIPAddrPrefix(netip.MustParsePrefix("10.9.1.0/24"))
+			body.NLRI = append(body.NLRI, bgp.PathNLRI{NLRI: extra2})
+		} else {
+			body.WithdrawnRoutes = []bgp.PathNLRI{{NLRI: c01Nlri(0)}}
+			extra2, _ := bgp.NewIPAddrPrefix(netip.MustParsePrefix("10.9.1.0/24"))
+			body.NLRI = append(body.NLRI, bgp.PathNLRI{NLRI: extra2})
+		}
+		w.recv(src, u)
+		o.stat("prefix_limit_cases", 1)
+		// the session is shut (Cease / maximum number of prefixes reached): not graceful
+		w.sessionDown(src, fsmReadFailed)
+		w.flush(obs)
+		var left []string
+		for _, p := range w.s.globalRib.GetPathList(table.GLOBAL_RIB_NAME, 0, []bgp.Family{bgp.RF_IPv4_UC}) {
+			if !p.IsLocal() && p.GetSource().Address == src.spec.addr {
+				left = append(left, p.GetNlri().String())
+			}
+		}
+		sort.Strings(left)
+		if len(left) > 0 {
+			o.fail("loc-rib-keeps-route-of-torn-down-session:prefix-limit-update", map[string]any{"left_in_loc_rib": left, "the_update_withdrew_a_route": withWithdraw,
+				"history": "peer max-prefixes 2; announce 10.1.0.0/24, 10.2.0.0/24; one UPDATE withdrawing 10.1.0.0/24 (if so) and announcing three more; session shut for the prefix limit"})
+		}
+		if len(obs.view) > 0 {
+			o.fail("peer-keeps-route-of-torn-down-session:prefix-limit-update", map[string]any{"observer_holds": obs.viewString2(), "the_update_withdrew_a_route": withWithdraw})
+		}
+		w.stop()
+	}
+}
+
 func TestVerifC01(t *testing.T) {
 	o := vOpen(t)
 	defer o.close()
+	c02PrefixLimitCase(t, o)
 	r := &vRand{s: o.seed*104729 + 11}
 	n := 250
 	if o.thorough {
